@@ -271,3 +271,36 @@ Theorem C19_honest_vtb_context_minimal_satisfiable :
   = Some [mkVtb 11 2 3 0 [1; 2]; mkVtb 12 2 4 2 [3; 4]].
 Proof. exact honest_vtb_context_minimal_ex. Qed.
 Print Assumptions C19_honest_vtb_context_minimal_satisfiable.
+
+(** * "... and then counts in fork resolution" in the comparator as coded (Rules/C19ForkRes.v, on the model of
+    comparePopScoreImpl of Score/CmpDefs.v — ONE template for the ALT tree and the VBK tree) *)
+From VB Require Import Score.CInt Score.CmpDefs Score.CmpProofs Rules.C19ForkRes.
+
+(** a chain whose first compared keystone has a publication (at height p of the chain below: BTC for VBK forks, VBK
+    for ALT forks) beats a chain whose keystone was never published — positive when it is the first argument,
+    negative when it is the second; for every configuration with a non-zero first table weight *)
+Theorem C19_endorsement_counts_in_comparator :
+  forall c p,
+    table_ok c -> fd_ok c -> 0 < tbl c 0 ->
+    0 <= p -> p + fd c < NO_ENDORSEMENT -> p + Z.of_nat (length (table c)) <= NO_ENDORSEMENT ->
+    budget_ok c 1 ->
+    (exists r, impl c (real_view [Some p]) (real_view [None]) = Ok r /\ 0 < r)
+    /\ (exists r, impl c (real_view [None]) (real_view [Some p]) = Ok r /\ r < 0).
+Proof. exact endorsement_counts. Qed.
+Print Assumptions C19_endorsement_counts_in_comparator.
+
+(** ... unconditionally for the parameters of the library's VBK tree (VTB endorsements published in BTC) and ALT tree *)
+Theorem C19_endorsement_counts_vbk_and_alt_params :
+  forall p, 0 <= p <= 2000000000 ->
+  forall c, c = vbk_cfg \/ c = alt_cfg ->
+    (exists r, impl c (real_view [Some p]) (real_view [None]) = Ok r /\ 0 < r)
+    /\ (exists r, impl c (real_view [None]) (real_view [Some p]) = Ok r /\ r < 0).
+Proof. exact endorsement_counts_default. Qed.
+Print Assumptions C19_endorsement_counts_vbk_and_alt_params.
+
+Theorem C19_endorsement_counts_satisfiable :
+  table_ok vbk_cfg /\ fd_ok vbk_cfg /\ 0 < tbl vbk_cfg 0 /\ 7 + fd vbk_cfg < NO_ENDORSEMENT
+  /\ 7 + Z.of_nat (length (table vbk_cfg)) <= NO_ENDORSEMENT /\ budget_ok vbk_cfg 1
+  /\ impl vbk_cfg (real_view [Some 7]) (real_view [None]) = Ok (tbl vbk_cfg 0).
+Proof. exact endorsement_counts_ex. Qed.
+Print Assumptions C19_endorsement_counts_satisfiable.
